@@ -26,7 +26,7 @@ type XCase struct {
 	Ops      []dbm.Op    `json:"ops"`               // put del batch compact reopen idle tropen trcommit trdiscard burst
 	CrashAt  int         `json:"crashat"`           // image taken just before the CrashAt-th mutating storage operation (counted from before the first Open)
 	TailSeed uint64      `json:"tailseed"`          // decides, per file, how much of the unsynced tail survives
-	TailAlg  int         `json:"tailalg,omitempty"` // 0: five tail modes; 1: adds cuts at page / journal-block boundaries followed by zeros up to the old length
+	TailAlg  int         `json:"tailalg,omitempty"` // 0: five tail modes; 1: adds cuts at an arbitrary byte or at page / journal-block boundaries, followed by zeros up to the old length
 	Nested   []int       `json:"nested,omitempty"`
 	After    []dbm.Op    `json:"after,omitempty"`
 	All      bool        `json:"all,omitempty"` // thorough: enumerate every crash instant of this history
@@ -46,7 +46,9 @@ func tailMode(seed uint64, alg int) vfs.TailMode {
 			// "the length made it to disk, some data pages did not": the tail is cut at a page
 			// boundary (4 KiB) or at a journal block boundary (32 KiB) inside the unsynced part
 			// and followed by zeros up to the old length. Still "cut and followed by zero bytes".
-			switch m := h % 8; m {
+			switch m := h % 9; m {
+			case 8:
+				return cut, make([]byte, n-cut) // cut at an arbitrary byte, zeros up to the old length
 			case 5, 6, 7:
 				unit := 4096
 				if m != 5 {
@@ -61,7 +63,7 @@ func tailMode(seed uint64, alg int) vfs.TailMode {
 				}
 				return b, make([]byte, n-b)
 			default:
-				h = h/8*5 + m
+				h = h/9*5 + m
 			}
 		}
 		switch h % 5 {
